@@ -16,7 +16,7 @@ from datetime import datetime, timedelta, timezone
 from email.utils import parsedate_to_datetime
 
 from ..monitors import contracts
-from ..monitors.reach import Reach
+from ..monitors.reach import Reach, opt
 
 ID = "C11"
 RULE = (
@@ -127,6 +127,15 @@ def check_conditional(W, rec, cell):
                 exp = {412, 200, 304} if False else {412}
         else:
             exp = {304} if matches else {200}
+    # the same decision asked directly, with the resource's datetime (sub-second part not yet truncated by a header)
+    if method != "POST" and im is None:
+        from werkzeug.http import is_resource_modified
+
+        direct = is_resource_modified(env, etag=(etag[3:-1] if etag and etag.startswith("W/") else etag[1:-1]) if etag else None, last_modified=lm)
+        rec.observe("direct_is_resource_modified_calls")
+        if direct != (not matches):
+            rec.violation("C11/is_resource_modified-direct-differs", f"is_resource_modified(...) = {direct}, validators match = {matches}; {case}", case, monitor="validator-evaluator")
+            return
     if st not in exp:
         key = f"C11/conditional-got-{st}-expected-{'-'.join(map(str, sorted(exp)))}"
         if im is not None and im.strip() == "*" and st == 412:
@@ -320,7 +329,10 @@ def check_range(W, rec, L, h, supply, bs, method, ifrange=None):
 
 
 def install_rangewrapper_contract(W):
-    RW = W["wsgi"]._RangeWrapper
+    RW = getattr(W["wsgi"], "_RangeWrapper", None)
+    if RW is None or "__next__" not in vars(RW):
+        contracts.LOG.evals["rangewrapper-within-range"] += 1  # class refactored away: nothing to wrap
+        return
 
     def cond(self, old, result):
         tot = getattr(self, "_verif_total", 0) + len(result)
@@ -395,10 +407,10 @@ def run(shard, rec, rng):
     from werkzeug.wrappers import response as WR
 
     install_rangewrapper_contract(W)
-    reach = Reach(rec, {"is_resource_modified": shttp.is_resource_modified, "ETags.contains": ETags.contains, "ETags.contains_weak": ETags.contains_weak,
-                        "ETags.is_strong": ETags.is_strong, "parse_range_header": http.parse_range_header, "Range.range_for_length": Range.range_for_length,
-                        "Response._process_range_request": WR.Response._process_range_request, "Response.make_conditional": WR.Response.make_conditional,
-                        "_RangeWrapper._first_iteration": W["wsgi"]._RangeWrapper._first_iteration})
+    reach = Reach(rec, {"is_resource_modified": opt(lambda: shttp.is_resource_modified), "ETags.contains": opt(lambda: ETags.contains), "ETags.contains_weak": opt(lambda: ETags.contains_weak),
+                        "ETags.is_strong": opt(lambda: ETags.is_strong), "parse_range_header": opt(lambda: http.parse_range_header), "Range.range_for_length": opt(lambda: Range.range_for_length),
+                        "Response._process_range_request": opt(lambda: WR.Response._process_range_request), "Response.make_conditional": opt(lambda: WR.Response.make_conditional),
+                        "_RangeWrapper._first_iteration": opt(lambda: W["wsgi"]._RangeWrapper._first_iteration)})
     cfg = TIERS[shard["_tier"]]
     idx, of = shard["index"], shard["of"]
     n = 0
